@@ -5,6 +5,11 @@ import json, subprocess
 props = [json.loads(l) for l in open('/verif/properties.jsonl')]
 
 CLAIMED = {
+ "C06": dict(level="exploration",
+   text="A real InteractionModel + Responder device over a generated synthetic node (1-4 endpoints, clusters, attributes with every legal Access combination incl. TIMED_ONLY and FAB_SCOPED, commands, events; instrumented handler logging every read/write/invoke it is asked to perform) and a generated ACL configuration serves generated Read / Subscribe-priming / Write / Invoke requests (1-8 concrete and wildcard paths, repeats, absent ids, data-version filters, optional Timed request with the delay placed at the timeout +-1 us) from planted CASE/PASE/group requesters, including node composition changes between chunks and fabric-sensitive events under two fabrics. Oracle: a reference expansion written from the statement (node metadata x the independent ACL decision of C05 x timed / fabric-scoped / group-membership rules) predicts the exact multiset of (path -> data | status class) and of handler calls; both are compared by bipartite matching.",
+   note="Status codes are compared by class; cases the statement leaves open accept both outcomes (listed as assumptions in the evidence). Fabric-sensitive fields of the real OperationalCredentials cluster are not checked (spec-version dependent). Two open known findings until repaired: NoSpace when reports exactly fill the buffer; fabric-sensitive event disclosed on non-fabric-filtered reads.",
+   technique="deterministic simulation of a synthetic IM device, differential against a reference expansion + instrumented handler log",
+   design="3/C06"),
  "C13": dict(level="exploration",
    text="Model-based histories on the real subscription table (Subscribe, priming read/done, attribute/cluster/endpoint changes and bursts that overflow the 16-entry change table, events, reporter wake-ups, report read/end ok/failed/rejected, fabric removal, clock advances) issued in exactly the order im.rs issues the table calls (concurrent primings, strictly sequential reporter, purge only when nothing is reportable); the reference model keeps, per subscription, the changes made after its priming data was read and not yet delivered. After every step each owed change must still be discoverable by that subscription (not purged, not coalesced away), failed reports must not advance watermarks, reports never come before the minimum interval, the liveness deadline lies within the maximum interval, failing subscriptions expire one maximum interval after their last success; a quiet drain at the end of every history must deliver everything owed.",
    note="Table level (L1) through cfg-gated wrappers; the end-to-end level (wire timing, retried report content, restart with persisted subscriptions) is added as a second binary (c13b) when built.",
